@@ -118,6 +118,10 @@ fn main() {
         crashshards_stream(&a);
         return;
     }
+    if a.stream == "walstop" {
+        walstop_stream(&a);
+        return;
+    }
     let crashes = match a.stream.as_str() {
         "crash" | "crashmid" => true,
         other => {
@@ -438,6 +442,82 @@ fn crashshards_stream(a: &snel_harness::out::Args) {
             st.oracle_fail(i, class, &format!("after the restart COUNT is {count}, acknowledged {n}; {desc}"));
         } else {
             st.oracle_ok();
+        }
+    }
+    st.finish();
+}
+
+
+/// Oracle-only: the clean-shutdown clause under every WAL buffering. 1-3 shards, buffered or
+/// unbuffered writer with or without `flush_each_write`, several lifetimes each ended by a graceful
+/// stop (`flush_all`, WAL writers stopped): after every restart every acknowledged event of every
+/// lifetime is served (`C01_clean_shutdown`, `C01_wal_clean_stop_keeps_all`).
+fn walstop_stream(a: &snel_harness::out::Args) {
+    use snel_harness::sys::Session;
+    let mut st = Stream::create(&a.out, "walstop");
+    for i in 0..a.cases {
+        if a.only.is_some_and(|o| o != i) {
+            continue;
+        }
+        let mut r = Rng::for_case(a.seed, "walstop", i);
+        let shards = 1 + r.below(3) as usize;
+        let buffered = r.below(4) != 0;
+        let fe = r.below(3) == 0;
+        let bufsz = match r.below(4) { 0 => 64, 1 => 110, 2 => 333, _ => 100 * 1024 };
+        let cfg = SysCfg {
+            shards,
+            event_per_zone: 1 + r.below(3) as usize,
+            fill_factor: 1 + r.below(3) as usize,
+            wal_buffered: buffered,
+            wal_flush_each_write: fe,
+            wal_buffer_size: bufsz.to_string(),
+            ..Default::default()
+        };
+        let root = a.out.join(format!("walstop-{i}"));
+        let _ = std::fs::remove_dir_all(&root);
+        let mut s = Session::start(&root, &cfg);
+        let ntypes = 1 + r.below(2);
+        for t in 0..ntypes {
+            assert!(s.cmd(&format!("DEFINE ev{t} FIELDS {{ k: \"int\" }}")).map(|x| x.ok()).unwrap_or(false));
+        }
+        let mut k = 0u64;
+        let mut placed: Vec<(u64, u64)> = vec![]; // (key, type)
+        let mut fail: Option<String> = None;
+        let lifetimes = 2 + r.below(3);
+        let mut desc = format!("walstop shards={shards} cap={} buffered={buffered} fe={fe} bufsz={bufsz} types={ntypes}:", cfg.capacity());
+        for life in 0..lifetimes {
+            let n = r.below(14);
+            for _ in 0..n {
+                k += 1;
+                let ty = r.below(ntypes);
+                assert!(s.cmd(&format!("STORE ev{ty} FOR c{} PAYLOAD {{\"k\":{k}}}", r.below(5))).map(|x| x.ok()).unwrap_or(false));
+                placed.push((k, ty));
+            }
+            desc.push_str(&format!(" S{n} STOP"));
+            let ok = s.shutdown();
+            if !ok {
+                fail.get_or_insert(format!("lifetime {life}: the graceful stop reported errors"));
+            }
+            s = Session::start(&root, &cfg);
+            for t in 0..ntypes {
+                let q = s.cmd(&format!("QUERY ev{t} RETURN [k]")).expect("query");
+                let mut got: Vec<u64> = q.col("k").iter().filter_map(|v| v.as_u64()).collect();
+                got.sort();
+                let want: Vec<u64> = placed.iter().filter(|p| p.1 == t).map(|p| p.0).collect();
+                if got != want {
+                    fail.get_or_insert(format!("after the restart that follows stop {life}: QUERY ev{t} serves {got:?}, acknowledged {want:?}"));
+                }
+            }
+        }
+        drop(s);
+        let _ = std::fs::remove_dir_all(&root);
+        st.tally(&format!("shards={shards}"));
+        st.tally(if !buffered { "unbuffered" } else if fe { "buffered_flush_each" } else { "buffered" });
+        st.tally_n("stores", k);
+        st.case(&desc, "-", k > 0);
+        match fail {
+            None => st.oracle_ok(),
+            Some(d) => st.oracle_fail(i, "-", &format!("{d}; {desc}")),
         }
     }
     st.finish();
